@@ -6,7 +6,7 @@ from collections.abc import Iterable
 from typing import Any, Self, overload
 
 from .ast import AST
-from .cst import cstadd, cstfinal, cstmerge
+from .cst import cstadd, cstfinal, cstmerge, islist
 from .infos import Alert, RuleInfo
 
 
@@ -16,6 +16,7 @@ from ..input import Cursor
 
 
 _AT_ = '__vallue__'
+_LAST_NODE_: Any = object()
 
 
 class ParseState:
@@ -76,11 +77,27 @@ class ParseState:
         self.cst = cstmerge(self.cst, node)
         return node
 
-    def nameset(self, name: str) -> None:
-        self.ast._set(name, self.last_node)
+    def nameset(self, name: str, value: Any = _LAST_NODE_) -> None:
+        if value is _LAST_NODE_:
+            value = self.last_node
+        self.ast._set(name, value)
 
-    def nameadd(self, name: str) -> None:
-        self.ast._setlist(name, self.last_node)
+    def nameadd(self, name: str, value: Any = _LAST_NODE_) -> None:
+        if value is _LAST_NODE_:
+            value = self.last_node
+        self.ast._setlist(name, value)
+
+    def valuesince(self, mark: Any) -> Any:
+        # the value contributed to the CST since `mark = self.cst` was taken
+        cst = self.cst
+        if cst is mark:
+            return None
+        if mark is None:
+            return cst
+        added = cst[len(mark) :] if islist(mark) else cst[1:]
+        if not added:
+            return None
+        return added[0] if len(added) == 1 else added
 
     def define(
         self,
